@@ -5,8 +5,8 @@ from ..wrapmon import Recorder, WrapMon, base_kind, recording_learner, stub_lear
 from . import treeshared as TS
 
 PROP = "C10"
-RULE = ("(a) stub learner (O(1) per call, named like the real class): horizons {100,333,1000,3000} (thorough: "
-        "+ 10000, 20000) x a 60-point rhomax grid in (0.02,0.98), reward = 3 sin t so every mis-routing moves a mean; "
+RULE = ("(a) stub learner (O(1) per call, named like the real class): horizons {100,333,1000,3000} and, for rhomax >= 0.67, {4000, 8000} "
+        "(thorough: all of these + 10000, 20000 on the whole grid) x a 63-point rhomax grid in (0.02,0.995], reward = 3 sin t so every mis-routing moves a mean; "
         "(b) POO x {T_HOO,HCT,VHCT} with the real learners on all partitions, random rewards, get_last_point queried "
         "at random rounds; per round: exactly one base pull and one base receive_reward on the same learner with the "
         "same reward, learner list only grows, new learners have nu=numax and a fresh grid rho in (0,rhomax), "
@@ -25,9 +25,9 @@ WALL = {"quick": 1200, "thorough": 5 * 3600}
 def gen_cases(rng, tier, count=None):
     out = []
     hs = [100, 333, 1000, 3000] + ([10000, 20000] if tier == "thorough" else [])
-    g = [0.02 + 0.96 * j / 59 for j in range(60)]
-    for n in hs:
-        for rm in g:
+    g = [0.02 + 0.96 * j / 59 for j in range(60)] + [0.985, 0.99, 0.995]
+    for n in hs + [4000, 8000]:
+        for rm in (g if n <= 3000 or tier == "thorough" else g[50:63:3] + g[40:50:4]):
             for kind in (["HCT"] if tier == "quick" else ["HCT", "T_HOO", "VHCT"]):
                 out.append({"algo": "POO_" + kind, "stub": True, "part": "Bin", "box": [[-1.0, 2.0]], "box_kind": "shifted",
                             "n": n, "T": n, "params": {"nu": 2.0, "rhomax": rm}, "np_seed": 0,
